@@ -584,6 +584,11 @@ func craftedInputs() (names []string, ins [][]byte) {
 	for t := uint64(5050); t <= 5054; t++ {
 		tags = append(tags, t)
 	}
+	// the bare items (no tag): a decoder's first look at a value of the wrong major type / null
+	for _, p := range payloads {
+		names = append(names, "bare "+p.n)
+		ins = append(ins, append([]byte{}, p.b...))
+	}
 	for _, t := range tags {
 		for _, p := range payloads {
 			h, _ := putHead(nil, 6, t, false)
